@@ -59,7 +59,7 @@ func newHostileEnv(ctx context.Context, o hostileOpts) (*hostileEnv, error) {
 		writers = append(writers, A+2)
 	}
 	no := false
-	var openOn []int
+	openOn := []int{}
 	for i := 1; i < A; i++ {
 		openOn = append(openOn, i)
 	}
